@@ -195,6 +195,10 @@ def judgeParse (cfg : ParseCfg) (cid : String) (o : Op) (hs : HState) (out : Out
     let modelSets := (modelTerms.zip modelSets).map fun (t, s) => t :: s
     out := out.v cid o.n (if sentence || recOff then "C01" else "C07") "D" (implSets == modelSets)
       (if implSets == modelSets then s!"sets={modelSets.length}" else s!"sets differ model={modelSets} impl={implSets}")
+    if !(sentence || recOff) then
+      let implToks := ((o.first "pltoks").getD []).map toInt
+      let modelToks := rr.pl.map fun s => match s.tok with | some k => Int.ofNat k | none => -1
+      out := out.v cid o.n "C07" "D" (implToks == modelToks) s!"token numbers of the parse list: impl={implToks} model={modelToks}"
   -- C06 -----------------------------------------------------------------------------------
   let attrOf := fun (k : Int) => if k ≥ 0 && k < n then k else (-1 : Int)
   if !sentence && recOff then
@@ -256,33 +260,63 @@ def judgeParse (cfg : ParseCfg) (cid : String) (o : Op) (hs : HState) (out : Out
         let implStrs := strSet (implTrees.map Tree.str)
         let distinctNoCost := strSet (trees.map Tree.strNoCost)
         out := out.s cid s!"trees derivations={ds.length} translations={(strSet (trees.map Tree.str)).length} denoted={implStrs.length} alt={hasAlt tab}"
-        -- C05
-        if ds.length < 2 then
-          out := out.v cid o.n "C05" "K" (amb == 0) s!"derivations={ds.length} amb={amb}"
-        else if distinctNoCost.length ≥ 2 then
-          out := out.v cid o.n "C05" "K" (amb == 1) s!"distinct translations={distinctNoCost.length} amb={amb}"
-        else
-          out := out.v cid o.n "C05" "K" (amb == 0 || amb == 1) s!"derivations={ds.length}, one translation amb={amb}"
-        if !costOn then
-          let specStrs := strSet (trees.map Tree.str)
+        -- make_parse events (hook): attribute an incomplete forest to the recorded findings
+        let mp := (o.first "mpev").getD []
+        let evReuse := kvInt mp "reuse"; let evOrig := kvInt mp "origins"
+        let evTag := if evReuse > 0 || evOrig > 0 then s!"KF-D9-forest-incomplete(reuse={evReuse},origins={evOrig}) " else ""
+        -- C05 (stated for sentences only)
+        if sentence then
+          if ds.length < 2 then
+            out := out.v cid o.n "C05" "K" (amb == 0) s!"derivations={ds.length} amb={amb}"
+          else if distinctNoCost.length ≥ 2 then
+            out := out.v cid o.n "C05" "K" (amb == 1) s!"distinct translations={distinctNoCost.length} amb={amb}"
+          else
+            out := out.v cid o.n "C05" "K" (amb == 0 || amb == 1) s!"derivations={ds.length}, one translation amb={amb}"
+        let specStrs := strSet (trees.map Tree.str)
+        if recovered then
+          -- C07: every denoted tree is a translation of a derivation of the repaired input.
+          -- D8: the C code takes the attribute of the token at the *list* index
+          let d8Attr := fun (t : Tree) => t.mapAttr fun a => if a ≥ 0 && a < n then a else -1
+          let listIdxStrs := strSet (ds.map fun d => (d8Attr (translate g d)).str)
+          let okSub := !implStrs.isEmpty && implStrs.all (specStrs.contains ·) && (!oneP || (!hasAlt tab && implStrs.length == 1))
+          let d8 := !okSub && !implStrs.isEmpty && implStrs.all (listIdxStrs.contains ·)
+          let minC := (trees.map Tree.totalCost).foldl min ((trees.map Tree.totalCost).headD 0)
+          let bestStrs := strSet ((trees.filter (·.totalCost == minC)).map fun t => t.accum.str)
+          let okCost := !implStrs.isEmpty && implStrs.all (bestStrs.contains ·) && (!oneP || (!hasAlt tab && implStrs.length == 1))
+          if !costOn then
+            out := out.v cid o.n "C07" "K" okSub
+              ((if d8 then "KF-D8-attr-by-list-index " else "") ++ s!"tree(s)={implStrs} translations of repaired input {toks}: {specStrs.length}")
+          else
+            let d8c := !okCost && implStrs.all fun x => (strSet ((ds.map fun d => (d8Attr (translate g d)).accum.str))).contains x
+            out := out.v cid o.n "C07" "K" okCost
+              ((if d8c then "KF-D8-attr-by-list-index " else evTag) ++ s!"tree(s)={implStrs} minimal translations of repaired input {toks}: {bestStrs}")
+        else if !costOn then
           if oneP then
             let okOne := !hasAlt tab && implStrs.length == 1 && implStrs.all (specStrs.contains ·)
-            out := out.v cid o.n (if recovered then "C07" else "C02") "K" okOne s!"tree={implStrs} translations={specStrs.length} input={toks}"
+            out := out.v cid o.n "C02" "K" okOne s!"tree={implStrs} translations={specStrs.length} input={toks}"
           else
-            out := out.v cid o.n (if recovered then "C07" else "C03") "K" (implStrs == specStrs)
-              (if implStrs == specStrs then s!"set equal size={specStrs.length}"
-               else s!"missing={specStrs.filter (!implStrs.contains ·)} spurious={implStrs.filter (!specStrs.contains ·)}")
+            let missing := specStrs.filter (!implStrs.contains ·)
+            let spurious := implStrs.filter (!specStrs.contains ·)
+            out := out.v cid o.n "C03" "K" (missing.isEmpty && spurious.isEmpty)
+              (if missing.isEmpty && spurious.isEmpty then s!"set equal size={specStrs.length}"
+               else (if spurious.isEmpty then evTag else "") ++ s!"missing={missing} spurious={spurious}")
         else
           -- C04: minimal cost translations with accumulated cost fields
           let minC := (trees.map Tree.totalCost).foldl min ((trees.map Tree.totalCost).headD 0)
+          let allAccum := strSet (trees.map fun t => t.accum.str)
           let best := strSet ((trees.filter (·.totalCost == minC)).map fun t => t.accum.str)
+          -- when the forest was built incompletely (recorded finding) the pruning can only
+          -- minimise over what is there: every result must still be a real translation with
+          -- correct fields
+          let genuine := !implStrs.isEmpty && implStrs.all (allAccum.contains ·)
           if oneP then
             let okOne := !hasAlt tab && implStrs.length == 1 && implStrs.all (best.contains ·)
-            out := out.v cid o.n "C04" "K" okOne s!"tree={implStrs} minimal({minC})={best}"
+            out := out.v cid o.n "C04" "K" okOne
+              ((if genuine && !hasAlt tab && implStrs.length == 1 then evTag else "") ++ s!"tree={implStrs} minimal({minC})={best}")
           else
             out := out.v cid o.n "C04" "K" (implStrs == best)
               (if implStrs == best then s!"set equal size={best.length} min={minC}"
-               else s!"min={minC} missing={best.filter (!implStrs.contains ·)} spurious={implStrs.filter (!best.contains ·)}")
+               else (if genuine then evTag else "") ++ s!"min={minC} missing={best.filter (!implStrs.contains ·)} spurious={implStrs.filter (!best.contains ·)}")
     else
       out := out.s cid "trees skipped long"
   -- C13: caller-side memory discipline as seen by the harness
